@@ -53,10 +53,14 @@ def judge(ctx, c, out, m_parse, m_cmp, m_words, tag):
     problems, confirmed = [], False
     expected = rc.den_upto(r, sig, word_bound(sig))
     # (1) the model parser returns the generated AST (precedence / associativity / blanks)
-    if m_parse != ("ok", rc.ast_wire(r)):
+    if m_parse == ("err", 96):
+        ctx.tally("model_parse_timed_out")
+    elif m_parse != ("ok", rc.ast_wire(r)):
         problems.append(f"model parse of {s!r} = {m_parse}, generated AST {rc.ast_wire(r)}")
     # (2) model NFA on words = denotation (ties the harness evaluator to the model)
-    if m_words[0] != "ok":
+    if m_words == ("err", 96):
+        ctx.tally("model_word_evaluation_timed_out")   # the driver's per-item time limit (large shuffle products): inconclusive
+    elif m_words[0] != "ok":
         problems.append(f"model compile failed: {m_words}")
     else:
         got = {w for w, b in zip(words, m_words[1]) if b}
